@@ -1,6 +1,8 @@
 /* White-box READS of channel state used by some oracles (never writes).
  * If a refactor breaks this file the build falls back to peek_stub.c. */
 #include "ares_private.h"
+#include <stdarg.h>
+#include <stdio.h>
 
 int peek_available(void) { return 1; }
 
@@ -84,4 +86,63 @@ int peek_channel_opts(const ares_channel_t *ch, long *tries, long *timeout_ms, l
 {
   *tries = (long)ch->tries; *timeout_ms = (long)ch->timeout; *maxtimeout_ms = (long)ch->maxtimeout; *ndots = (long)ch->ndots; *rotate = ch->rotate ? 1 : 0;
   return 1;
+}
+
+/* complete effective configuration, rendered as text lines "key=value" (C16: original vs copy, before vs after reinit) */
+static size_t pf_add(char *out, size_t cap, size_t off, const char *fmt, ...)
+{
+  va_list ap;
+  int     n;
+  if (off >= cap) {
+    return off;
+  }
+  va_start(ap, fmt);
+  n = vsnprintf(out + off, cap - off, fmt, ap);
+  va_end(ap);
+  if (n < 0) {
+    return off;
+  }
+  return off + (size_t)n > cap ? cap : off + (size_t)n;
+}
+
+size_t peek_full(const ares_channel_t *ch, char *out, size_t cap)
+{
+  size_t off = 0;
+  size_t i;
+  off = pf_add(out, cap, off, "flags=%u\n", ch->flags);
+  off = pf_add(out, cap, off, "timeout=%zu\n", ch->timeout);
+  off = pf_add(out, cap, off, "tries=%zu\n", ch->tries);
+  off = pf_add(out, cap, off, "ndots=%zu\n", ch->ndots);
+  off = pf_add(out, cap, off, "maxtimeout=%zu\n", ch->maxtimeout);
+  off = pf_add(out, cap, off, "rotate=%d\n", ch->rotate ? 1 : 0);
+  off = pf_add(out, cap, off, "sndbuf=%d\n", ch->socket_send_buffer_size);
+  off = pf_add(out, cap, off, "rcvbuf=%d\n", ch->socket_receive_buffer_size);
+  off = pf_add(out, cap, off, "domains=");
+  for (i = 0; i < ch->ndomains; i++) {
+    off = pf_add(out, cap, off, "%s%s", i ? "," : "", ch->domains[i]);
+  }
+  off = pf_add(out, cap, off, "\n");
+  off = pf_add(out, cap, off, "sortlist=");
+  for (i = 0; i < ch->nsort; i++) {
+    char buf[64];
+    buf[0] = 0;
+    ares_inet_ntop(ch->sortlist[i].addr.family, &ch->sortlist[i].addr.addr, buf, sizeof(buf));
+    off = pf_add(out, cap, off, "%s%s/%u", i ? "," : "", buf, (unsigned)ch->sortlist[i].mask);
+  }
+  off = pf_add(out, cap, off, "\n");
+  off = pf_add(out, cap, off, "lookups=%s\n", ch->lookups ? ch->lookups : "");
+  off = pf_add(out, cap, off, "ednspsz=%zu\n", ch->ednspsz);
+  off = pf_add(out, cap, off, "qcache_max_ttl=%u\n", ch->qcache_max_ttl);
+  off = pf_add(out, cap, off, "udp_max_queries=%zu\n", ch->udp_max_queries);
+  off = pf_add(out, cap, off, "retry_chance=%u\n", (unsigned)ch->server_retry_chance);
+  off = pf_add(out, cap, off, "retry_delay=%zu\n", ch->server_retry_delay);
+  off = pf_add(out, cap, off, "local_dev=%s\n", ch->local_dev_name);
+  off = pf_add(out, cap, off, "local_ip4=%u\n", ch->local_ip4);
+  off = pf_add(out, cap, off, "local_ip6=");
+  for (i = 0; i < 16; i++) {
+    off = pf_add(out, cap, off, "%02x", ch->local_ip6[i]);
+  }
+  off = pf_add(out, cap, off, "\n");
+  off = pf_add(out, cap, off, "optmask=%u\n", ch->optmask);
+  return off;
 }
